@@ -404,7 +404,7 @@ pub fn run(tier: Tier, _budget: f64, out: &mut Outcome) -> Result<(), MachineryE
             out.known_hits.push(format!("KNOWN-FINDING: property=C17 {}", k.what));
             continue;
         }
-        let dir = std::path::Path::new(check::VERIF).join("replays").join("C17");
+        let dir = std::path::Path::new(&check::verif_root()).join("replays").join("C17");
         let _ = std::fs::create_dir_all(&dir);
         let path = dir.join(format!("{:016x}.json", crate::explore::hash_of(&(b.oracle, &b.case))));
         let mut doc = b.replay.clone();
